@@ -10,6 +10,8 @@ behaviour-preserving spellings of the same code:
   C4 trailing temporaries     `t = E` immediately followed by the only use of t in `return t` / `return f(..t..)`? no: only the exact
                               `t = E ; return t` pair becomes `return E`
 
+  C5 parallel assignment       `a, b = x, y` -> `a = x ; b = y` when no left name is read on the right
+
 Positions (lineno) of rewritten nodes are those of the original nodes, so reports still point into the real file.
 """
 import ast
@@ -109,8 +111,42 @@ def _fold_return_temps(tree):
                 i += 1
 
 
+def _split_parallel_assignments(tree):
+    """C5  `a, b = x, y` (plain distinct names on the left, a display of the same length on the right, no left name read on the right)
+    -> `a = x ; b = y`.  Evaluation order of x, y is kept; the only difference - a is bound before y is evaluated - is invisible because y
+    does not read a."""
+    for node in ast.walk(tree):
+        for fld in ("body", "orelse", "finalbody"):
+            b = getattr(node, fld, None)
+            if not (isinstance(b, list) and b and isinstance(b[0], ast.stmt)):
+                continue
+            out = []
+            for st in b:
+                if isinstance(st, ast.Assign) and len(st.targets) == 1 and isinstance(st.targets[0], (ast.Tuple, ast.List)) and \
+                        isinstance(st.value, (ast.Tuple, ast.List)) and len(st.targets[0].elts) == len(st.value.elts) and \
+                        all(isinstance(t, ast.Name) for t in st.targets[0].elts) and not any(isinstance(v, ast.Starred) for v in st.value.elts):
+                    names = [t.id for t in st.targets[0].elts]
+                    read = set(x.id for v in st.value.elts for x in ast.walk(v) if isinstance(x, ast.Name))
+                    calls = any(isinstance(x, (ast.Call, ast.Yield, ast.YieldFrom, ast.Await, ast.NamedExpr)) for v in st.value.elts for x in ast.walk(v))
+                    if len(set(names)) == len(names) and not (set(names) & read) and not (calls and _names_global(tree, names)):
+                        for t, v in zip(st.targets[0].elts, st.value.elts):
+                            out.append(ast.copy_location(ast.Assign(targets=[t], value=v), st))
+                        continue
+                out.append(st)
+            setattr(node, fld, out)
+
+
+def _names_global(tree, names):
+    """a call on the right-hand side could observe a module-level / nonlocal name being bound early: only function locals are split"""
+    for n in ast.walk(tree):
+        if isinstance(n, (ast.Global, ast.Nonlocal)) and set(n.names) & set(names):
+            return True
+    return False
+
+
 def canonicalise(tree):
     tree = _Canon().visit(tree)
+    _split_parallel_assignments(tree)
     _fold_return_temps(tree)
     ast.fix_missing_locations(tree)
     return tree
